@@ -207,12 +207,18 @@ func run(e *hx.Env) *hx.Report {
 	var kinds []string
 	for i := 0; i < n; i++ {
 		tame := i%3 == 0
-		c, ps := policy.GenCase(e.Rng, tame)
+		gen := policy.GenCase
+		if i%8 == 5 || i%24 == 0 {
+			// rules sharing their first selector peer (3..15 pods) followed by different further peers
+			gen = policy.GenCrowdCase
+			rep.Hit("generated:rules-sharing-first-peer")
+		}
+		c, ps := gen(e.Rng, tame)
 		for policy.KeyClash(ps) {
 			// a rule listing one network both as cidr and as except: the kernel set holds ONE element per key and flips
 			// on every sync (report; theorem ipset_entries_counter_key_clash) — outside the compared inputs
 			rep.Hit("generated:key-clash-skipped")
-			c, ps = policy.GenCase(e.Rng, tame)
+			c, ps = gen(e.Rng, tame)
 		}
 		flows := policy.Flows(c, ps)
 		results = append(results, bt.Add(fmt.Sprintf("s%d-c%d", e.Seed, i), c, ps, flows))
